@@ -15,7 +15,7 @@ var c10Assumptions = []string{
 
 const c10Text = "bounded model checking: goroutines of the real code (go/ssa) are turned into control-flow automata by symbolic execution between visible operations; the product is unrolled K steps into one SMT formula whose schedule, inputs and the monoid's identity element are solver variables; K is raised until no run of K non-stutter steps exists (completeness threshold), so the Final condition is a statement about all complete runs of the configuration. " +
 	"C10: fork.Fold with par workers (each folding the elements it happens to receive from Empty(), publishing its partial result from a deferred function) and the collector goroutine (WaitGroup, merge of par partial results, one send, close), a producer goroutine (send n elements, close) and a consumer that receives until the result channel is closed. The consumer asserts that the first value equals the left fold of the input from the identity computed sequentially in the set-up (what pipe.Fold delivers) and that there is no second value; at quiescence: exactly one value received, the operation applied exactly n+par times (once per element, once per partial result), result channel closed, every library goroutine returned, producer not blocked. " +
-	"Bounds: quick = workers 1..2 with n 0..3 and workers 3 with n=0 (xor family, symbolic identity), producer capacity 0 (capacity 1 for workers=2), the additive family for workers=1 n<=3 and workers=2 n=1, and/max instances for workers=2 n=2, 64-bit elements for workers=2 n=1; thorough adds workers=3 n=1, n=4 for one worker, capacity 1 with n=3, the additive family and 64-bit elements with workers=2 n=2. workers=3 with n>=2 was not decided within 5 minutes per query and is outside both tiers."
+	"Bounds: quick = workers 1..2 with n 0..3 and workers 3 with n=0 (xor family, symbolic identity), producer capacity 0 (capacity 1 for workers=2), the additive family for workers=1 n<=3 and workers=2 n=1, and/max instances for workers=2 n=2, 64-bit elements for workers=2 n=1; thorough adds workers=3 n=1, n=4 for one worker (xor family only: the additive family hits the solver time limit at n=4), capacity 1 with n=3, the additive family and 64-bit elements with workers=2 n=2. workers=3 with n>=2 was not decided within 5 minutes per query and is outside both tiers."
 
 func init() {
 	reg(&PropSpec{
@@ -49,7 +49,7 @@ func init() {
 				add(2, 2, 0, 1, 0)
 				add(2, 2, 0, 0, 1)
 				add(1, 4, 0, 0, 0)
-				add(1, 4, 0, 1, 0)
+				// (n=4 with the additive family: solver time limit, measured twice - not registered)
 			}
 			return js
 		},
